@@ -247,6 +247,107 @@ theorem C17.zero_dim_out_fails (s : TSelf) (np : NpRes) :
     tensorDispatch s .reduce 1 [.ndarray0] np = .err "IndexError" := by
   simp [tensorDispatch, arityOk, validOutT]
 
+/-! ## Totality on regular requests -/
+
+/-- The space constructor accepts every numeric dtype unless a float64 weight array cannot be
+cast to it. -/
+theorem C17.ctorT_ok (dt : DType) (w : Option Weighting) (hn : dt.isNumeric = true)
+    (hw : ∀ e, w = some (.array e) → dt.canCastFromF64 = true) :
+    ∃ w', ctorT dt w = .ok w' := by
+  unfold ctorT
+  rcases w with _ | (⟨c, e⟩ | e)
+  · exact ⟨_, rfl⟩
+  · simp [hn]
+  · simp [hn, hw e rfl]
+
+/-- `__call__` wrapping succeeds when NumPy's shape pads to the element's shape. -/
+theorem C17.wrapCall_ok (s : TSelf) (p : Bool) (sh : List Nat) (dt : DType)
+    (hn : dt.isNumeric = true)
+    (hw : dt.isFloating = true → (∃ c e, s.w = .const c e) ∨ dt.canCastFromF64 = true)
+    (hp : padShape s.shape.length sh = s.shape) :
+    ∃ r, wrapCall s p (.arr sh dt) = .ok r := by
+  unfold wrapCall
+  obtain ⟨w', hw'⟩ := C17.ctorT_ok dt (if (p && dt.isFloating) = true then some s.w else none) hn (by
+    intro e he
+    split at he
+    · rename_i hc
+      simp at hc
+      rcases hw hc.2 with ⟨c, e', h⟩ | h
+      · simp_all
+      · exact h
+    · simp at he)
+  dsimp only at hw' ⊢
+  rw [hw']
+  simp [hp]
+
+/-- Wrapping for the other methods succeeds for any result shape. -/
+theorem C17.wrapMethod_ok (s : TSelf) (sh : List Nat) (dt : DType)
+    (hn : dt.isNumeric = true)
+    (hw : dt.isFloating = true → (∃ c e, s.w = .const c e) ∨ dt.canCastFromF64 = true) :
+    ∃ r, wrapMethod s sh dt = .ok r := by
+  unfold wrapMethod
+  obtain ⟨w', hw'⟩ := C17.ctorT_ok dt (if dt.isFloating = true then
+      (if sh ≠ s.shape then some (.const 1 s.w.exp) else some s.w) else none) hn (by
+    intro e he
+    split at he
+    · rename_i hc
+      split at he
+      · simp at he
+      · rcases hw hc with ⟨c, e', h⟩ | h
+        · simp_all
+        · exact h
+    · simp at he)
+  dsimp only at hw' ⊢
+  rw [hw']
+  simp
+
+/- FULL statement wanted by the property (does NOT hold, see the `_fails` theorems above):
+   for every well-formed call on which NumPy succeeds, the glue succeeds and returns one
+   object per output.  It fails for (C17-F1) `__call__` whose NumPy result is larger than the
+   element's shape, (C17-F4) an array-weighted space with a result dtype that cannot hold
+   float64 weights, (C17-F5) a 0-d `ndarray` as `out`.  `RegularT` excludes exactly these
+   (plus NumPy returning something that is not an array). -/
+
+/-- `ufunc_result_total_partial` (tensor): on every regular request (all methods, one or two
+outputs, any accepted `out` tuple, any shapes / dtypes / weighting) the glue does not raise and
+returns exactly one object per NumPy output.  Together with `ufunc_result_space_tensor` and
+`ufunc_out_identity_tensor` this pins each returned object down completely. -/
+theorem C17.ufunc_result_total_partial (s : TSelf) (m : Method) (nout : Nat) (outs : List OutKind) (vals : List NpVal)
+    (h : RegularT s m nout outs vals) :
+    ∃ rets, tensorDispatch s m nout outs (.ok vals) = .ok rets ∧ rets.length = vals.length := by
+  obtain ⟨ha, hv, h0, hc, hm, hvals⟩ := h
+  have h0' : outs.any (· = .ndarray0) = false := by
+    rw [List.any_eq_false]; intro o ho; simpa using h0 o ho
+  unfold tensorDispatch
+  simp only [ha, hv, h0', Bool.not_true, Bool.false_eq_true, if_false]
+  by_cases hcall : m = .call
+  · subst hcall
+    obtain ⟨hn, hl⟩ := hc rfl
+    rcases hn with rfl | rfl
+    · rcases vals with _ | ⟨v, _ | _⟩ <;> simp at hl
+      obtain ⟨sh, dt, rfl, hnum, hw, hp⟩ := hvals v (by simp)
+      obtain ⟨r, hr⟩ := C17.wrapCall_ok s true sh dt hnum hw (hp rfl)
+      simp only [out1, hr, reduceIte]
+      split <;> simp
+    · rcases vals with _ | ⟨v1, _ | ⟨v2, _ | _⟩⟩ <;> simp at hl
+      obtain ⟨sh1, dt1, rfl, hnum1, hw1, hp1⟩ := hvals v1 (by simp)
+      obtain ⟨sh2, dt2, rfl, hnum2, hw2, hp2⟩ := hvals v2 (by simp)
+      obtain ⟨r1, hr1⟩ := C17.wrapCall_ok s false sh1 dt1 hnum1 hw1 (hp1 rfl)
+      obtain ⟨r2, hr2⟩ := C17.wrapCall_ok s false sh2 dt2 hnum2 hw2 (hp2 rfl)
+      cases hg1 : (outs.getD 0 .none).given <;> cases hg2 : (outs.getD 1 .none).given <;>
+        simp [out2, hr1, hr2]
+  · have hl := hm hcall
+    rcases vals with _ | ⟨v, _ | _⟩ <;> simp at hl
+    obtain ⟨sh, dt, rfl, hnum, hw, -⟩ := hvals v (by simp)
+    obtain ⟨r, hr⟩ := C17.wrapMethod_ok s sh dt hnum hw
+    cases m <;> simp_all [out1] <;> split <;> simp
+
+example : RegularT ⟨[2, 3], .array (some 2)⟩ .reduce 1 [.own] [.arr [3] .complex128] := by
+  refine ⟨by decide, by decide, by decide, by decide, by decide, ?_⟩
+  intro v hv
+  simp at hv
+  exact ⟨[3], .complex128, hv, by decide, fun _ => Or.inr (by decide), by decide⟩
+
 /-! ## Discretized elements: `reduce`, `outer` -/
 
 /-- Methods other than `__call__`, no `out`: the result is `wrapMethod`. -/
